@@ -299,8 +299,8 @@ theorem go_names_valid (fuel : Nat) (ins outs : List P)
       ∀ n ∈ names r.1 ++ names r.2, ValidIdent n :=
   ⟨_, go_ensureParamNames_eq fuel ins outs hf, names_valid ins outs hU hv⟩
 
-/-- the hypotheses are satisfiable and the translation computes: `M(arg0 int, _ string, _ context…)
-(_ T, error)` with a user parameter called `arg0` - the witness of the pinned commit's defect -/
+/-- the hypotheses are satisfiable: `M(arg0 int, _ string, _ context.Context) (_ T, error)` with a
+user parameter called `arg0` (the witness of the pinned commit's defect), fuel 20 -/
 example :
     Method.ensureParamNames 20
         [⟨"arg0".toList, false, false⟩, ⟨"_".toList, false, false⟩, ⟨[], false, true⟩]
